@@ -141,7 +141,7 @@ class UnitResult(dict):
     pass
 
 
-UNIT_DEADLINE = int(os.environ.get('VERIF_UNIT_DEADLINE', '0') or 0) or (270 if TIER != 'thorough' else 3300)
+UNIT_DEADLINE = int(os.environ.get('VERIF_UNIT_DEADLINE', '0') or 0) or (540 if TIER != 'thorough' else 3300)
 
 
 class UnitTimeout(BaseException):
@@ -362,6 +362,11 @@ class Report:
             self.models_used |= set(r.get('models', []))
             if r.get('sample') and len(self.samples) < 12:
                 self.samples.append(r['sample'])
+            if r.get('wall') is not None:
+                sl = self.extra.setdefault('slowest_units_s', [])
+                sl.append((r['wall'], name))
+                sl.sort(reverse=True)
+                del sl[5:]
 
     def finish(self, known=None):
         known = known if known is not None else load_known()
